@@ -36,7 +36,7 @@ from vlib import core, c19_env as env
 ID = "C19"
 CLAIMED = True
 TITLE = "Connection racing returns one socket and leaks none"
-REQUIRED_THEOREMS = ["C19_one_returned", "C19_none_on_failure", "C19_open_inv", "C19_failure_nonempty", "C19_terminates",
+REQUIRED_THEOREMS = ["C19_one_returned", "C19_none_on_failure", "C19_at_most_one_open_after_end", "C19_open_inv", "C19_failure_nonempty", "C19_terminates",
                      "C19_progress", "C19_reorder_perm", "C19_seq_one_or_none"]
 LEVEL_TEXT = (
     "Machine-checked proof (Lean 4) over the transition system of _staggered_race_connection_impl / "
